@@ -226,14 +226,19 @@ let rec diag (a : cexpr) (b : cexpr) : string =
         if d <> "" then d else "mismatch:letrec-side-condition"
   | LetRec (_, body), _ -> nonempty (diag body b)
   | Match (s, ACons (PRec pfs, body, ANil)), _
-    when (match b with Match (s', ACons (PRec pfs', _, ANil)) -> not (pfs = pfs' && valid_opt s s') | _ -> true) ->
+    when (match b with Match (_, ACons (PRec pfs', _, ANil)) -> pfs <> pfs' | _ -> true) ->
       (match s with
        | Rec (_, args) ->
            (* R3: find a field whose expression is gone although it is not droppable *)
            let rec lets e = match e with Let (_, r, k) -> r :: lets k | _ -> [] in
            let kept = lets b in
            (match List.find_opt (fun e -> not (droppable e) && not (List.exists (fun r -> valid_opt e r) kept)) (elist args) with
-            | Some e -> "drop-field:" ^ why_not_droppable e
+            | Some e ->
+                (* the field may have been kept with something dropped inside it *)
+                let is_drop d = String.length d >= 4 && String.sub d 0 4 = "drop" in
+                (match List.find_opt is_drop (List.map (fun r -> diag e r) kept) with
+                 | Some d -> d
+                 | None -> "drop-field:" ^ why_not_droppable e)
             | None -> "mismatch:unnecessary-allocation")
        | _ ->
            if not (droppable s) then "drop-match:" ^ why_not_droppable s else nonempty (diag body b))
